@@ -265,6 +265,45 @@ fn duo(input: &[V]) -> Vec<V> {
     out
 }
 
+/// many complete peer-driven key updates on a fresh endpoint.
+/// input: conf_limit integ_limit window n   (n is taken modulo 2^17)
+/// each cycle i = 1..n: a genuine packet of generation i (phase bit i mod 2) is opened, then the
+/// derivation timer fires.  output: panicked(0/1) cycles_completed packets_opened
+/// last_reported_generation key_phase active_gen armed derive_count
+fn rot(input: &[V]) -> Vec<V> {
+    let mut c = Cur::new(input);
+    let (conf, integ, window) = (c.u64(), c.u64(), c.u64());
+    let n = c.u64() & ((1 << 17) - 1);
+    let mut e = Endpoint::new(conf, integ, window);
+    let (mut done, mut opened, mut last, mut panicked) = (0u64, 0u64, 0 as V, 0 as V);
+    for i in 1..=n {
+        let r = std::panic::catch_unwind(std::panic::AssertUnwindSafe(|| {
+            let r = e.decrypt(i, (i & 1) as u8, 1, 0, 1);
+            e.ks.on_timeout(ts(1));
+            r
+        }));
+        match r {
+            Ok((code, g)) => {
+                done += 1;
+                if code <= 1 {
+                    opened += 1;
+                }
+                if code == 1 {
+                    last = g;
+                }
+            }
+            Err(_) => {
+                panicked = 1;
+                break;
+            }
+        }
+    }
+    let mut out = vec![panicked, done as V, opened as V, last];
+    e.state(&mut out, false);
+    out.push(e.derives.load(Ordering::SeqCst) as V);
+    out
+}
+
 fn main() {
-    main_with(&[("ks", ks), ("duo", duo)]);
+    main_with(&[("ks", ks), ("duo", duo), ("rot", rot)]);
 }
